@@ -336,7 +336,7 @@ func genDataOp(t *rapid.T, dir string, labels []string, first bool, equs []DataO
 
 var propC05 = &Prop[DataCase]{
 	ID:   "C05",
-	Rule: "programs of data directives: DB/DW/DD with 1..64 operands mixing numbers (negative, boundary, out of range), constant expressions, strings (ASCII and UTF-8 text) and single characters (DB), earlier labels, earlier EQU constants and $; RESB n and RESB addr-$; ALIGNB n; interleaved EQU, labels, GLOBAL/EXTERN and bracket directives, and up to two out-of-reach Jcc lines that force a second assembly round; ORG aligned and unaligned; oracle: reference model of the directives written from the property text (little-endian low bits, strings byte for byte, n zeros, minimal padding of the address), plus location counter = bytes emitted; non-trivial = accepted and a list of >= 2 operands, a string, an expression or padding; distinct by source text. The enumeration is the complete ALIGNB grid (7 units x 64 residues x 4 origins).",
+	Rule: "programs of data directives: DB/DW/DD with 1..64 operands (one DB in eight padded to emit exactly 63..1024 bytes around the powers of two) mixing numbers (negative, boundary, out of range), constant expressions, strings (ASCII and UTF-8 text) and single characters (DB), earlier labels, earlier EQU constants and $; RESB n and RESB addr-$; ALIGNB n; interleaved EQU, labels, GLOBAL/EXTERN and bracket directives, and up to two out-of-reach Jcc lines that force a second assembly round; ORG aligned and unaligned; oracle: reference model of the directives written from the property text (little-endian low bits, strings byte for byte, n zeros, minimal padding of the address), plus location counter = bytes emitted; non-trivial = accepted and a list of >= 2 operands, a string, an expression or padding; distinct by source text. The enumeration is the complete ALIGNB grid (7 units x 64 residues x 4 origins).",
 	Gen: func(t *rapid.T) DataCase {
 		c := DataCase{Org: rapid.SampledFrom([]int64{-1, 0, 0x100, 0x7c00, 0x7c01, 0xc203, 0xfffc, 0x10000, 0x280000}).Draw(t, "org"), Mode: rapid.SampledFrom([]int{0, 16, 32}).Draw(t, "mode")}
 		used := map[string]bool{}
@@ -355,6 +355,23 @@ var propC05 = &Prop[DataCase]{
 				l := DataLine{Kind: dir}
 				for j := 0; j < m; j++ {
 					l.Ops = append(l.Ops, genDataOp(t, dir, labels, j == 0, equs))
+				}
+				// one DB statement in eight is padded with a string so that it emits exactly a chosen number of
+				// bytes around a power of two (whoever splits or buffers long statements does it at such sizes)
+				if dir == "db" && rapid.IntRange(0, 7).Draw(t, "exact") == 3 {
+					target := rapid.SampledFrom([]int{63, 64, 65, 127, 128, 129, 191, 192, 193, 255, 256, 257, 320, 511, 512, 513, 1024}).Draw(t, "exactn")
+					have := 0
+					for _, o := range l.Ops {
+						if o.Kind == "str" {
+							have += len(o.Str)
+						} else {
+							have++
+						}
+					}
+					if have < target {
+						pad := strings.Repeat("abcdefghijklmnopqrstuvwxyz0123456789", (target-have)/36+1)[:target-have]
+						l.Ops = append(l.Ops, DataOp{Kind: "str", Str: pad, Text: `"` + pad + `"`})
+					}
 				}
 				c.Lines = append(c.Lines, l)
 			case k == 7:
